@@ -235,5 +235,23 @@ def check(rep, ctx):
                           f"compare equal but are different instants; the second one is written with the first one's milliseconds",
                   file=m["file"], line=m["line"])
     rep.count(R_M, 1, instance="scan")
+    # the varint writer every record length / delta goes through emits canonical LEB128 for every value
+    R_V = rep.rule("C17-varint", "every varint written for a record comes from a varint writer whose every path emits the canonical bytes "
+                   "for every value that takes it (bit-vector proof, kverif/varint.py)", floor=1,
+                   necessary_because="zig-zag(8192) = 16384 written by a two-byte fast path as 80 80: an independent decoder reads past the record")
+    atoms = {}
+
+    def collect(effects):
+        for e in effects:
+            if e[0] == "wvarint" and isinstance(e[3], dict):
+                atoms.setdefault(e[3]["fn"], e[3])
+            elif e[0] == "repeat":
+                for b in e[2]:
+                    collect(b[1])
+    for p_ in list(WR["paths"]) + list(W["paths"] if isinstance(W, dict) and "paths" in W else []):
+        collect(p_.effects)
+    for fnref, atom in sorted(atoms.items()):
+        rep.check(R_V, not atom.get("problems"), construct=fnref, stmt=f"{fnref}: {len(atom['paths'])} paths, up to {atom['max_bytes']} bytes",
+                  message="; ".join(atom.get("problems") or []), file="src/kio/serial/writers.py", line=atom.get("line", 0))
     rep.sample({"rule": "C17-layout", "spec": BATCH_SPEC})
     rep.trusted_base += ["crc32c.crc32c (external C extension)", "struct format table", "kverif/records.py BATCH_SPEC written from the Kafka record batch documentation"]
